@@ -13,10 +13,18 @@ CONSTANTS MaxMsgs,      \* publishes per behaviour
           MaxPauses,    \* PauseStream calls per behaviour
           MaxRestarts,  \* server restarts per behaviour
           OccSet, BatchSet, PathSet, Kinds, Pols,
-          Mut           \* "none" | "after_write" | "newest" | "batch" | "none_paused" | "neg_waives" | "nack_leader_only"
+          Vias,         \* who publishes: subset of {"api", "subj", "nats", "natsq", "plain"}
+          MaxHolds,     \* PublishAsync publishes whose in-flight count is a step of its own
+          MaxSnaps,     \* Raft snapshots per behaviour (between waves)
+          MaxInstalls,  \* snapshot installs on the running server per behaviour
+          Snap0Set,     \* what the newest snapshot holds when the first wave starts
+          SnapKeeps,    \* FALSE = defective variant: the snapshot's copy of the stream loses the setting
+          Mut           \* "none" | "after_write" | "newest" | "batch" | "none_paused" | "neg_waives" |
+                        \* "nack_leader_only" | "drop_idle_ack" | "noinbox_exp"
 
-VARIABLES last, nReads, nPauses, nRestarts
-mcvars == <<vars, last, nReads, nPauses, nRestarts>>
+VARIABLES last, nReads, nPauses, nRestarts, nHolds, nSnaps, nInstalls
+budgets == <<nReads, nPauses, nRestarts, nHolds, nSnaps, nInstalls>>
+mcvars == <<vars, last, budgets>>
 
 SentBy(p) == Cardinality({id \in Ids : msgs[id].p = p})
 
@@ -24,49 +32,88 @@ MCInit ==
   /\ cfg \in [occ : OccSet, batch : BatchSet, path : PathSet]
   /\ msgs = <<>> /\ net = {} /\ chan = <<>> /\ log = <<>> /\ ackq = {}
   /\ clk = 1 /\ known = [p \in Pubs |-> 0] /\ paused = FALSE
+  /\ eocc = cfg.occ /\ snap \in Snap0Set /\ infl = [p \in Pubs |-> 0] /\ unc = {}
   /\ last = [a |-> "Open"] /\ nReads = 0 /\ nPauses = 0 /\ nRestarts = 0
+  /\ nHolds = 0 /\ nSnaps = 0 /\ nInstalls = 0
 
-MCSend(p, kind, pol) ==
+\* a call that returns with the answer (unary Publish RPC, PublishToSubject)
+Blocking(id) == msgs[id].via = "subj" \/ (msgs[id].via = "api" /\ cfg.path = "sync")
+
+MCSend(p, kind, pol, via, hold) ==
   /\ Len(msgs) < MaxMsgs /\ SentBy(p) < MaxPerPub
   /\ kind = "stale" => known[p] > 0          \* otherwise the same as "equal"
-  /\ pol = "none" => \A id \in Ids : msgs[id].pol # "none"
-  \* the unary Publish RPC returns with the answer: one outstanding publish per publisher
-  /\ cfg.path = "sync" => \A id \in Ids : msgs[id].p = p => msgs[id].ackT < Inf
+  /\ pol = "none" => (via = "api" /\ \A id \in Ids : msgs[id].pol # "none")
+  \* canonical form of what does not matter: no field => no kind, no inbox => no ack policy
+  /\ via \in NoExp => kind = "waive"
+  /\ via \in Silent => pol = "leader"
+  /\ hold => (via = "api" /\ cfg.path = "async" /\ pol # "none" /\ nHolds < MaxHolds)
+  \* a blocking call returns with the answer: the publisher does nothing while one is outstanding
+  /\ \A id \in Ids : (msgs[id].p = p /\ Blocking(id)) => msgs[id].ackT < Inf
   \* (d') seeded defect: ack policy NONE is not refused while the partition is paused
-  /\ IF Mut = "none_paused" THEN SendAs(p, kind, pol, cfg.occ /\ pol = "none" /\ ~paused)
-                            ELSE DoSend(p, kind, pol)
-  /\ last' = [a |-> "Send", p |-> p, kind |-> kind, pol |-> pol]
-  /\ UNCHANGED <<nReads, nPauses, nRestarts>>
+  /\ IF Mut = "none_paused" THEN SendAs(p, kind, pol, via, hold, via = "api" /\ eocc /\ pol = "none" /\ ~paused)
+                            ELSE DoSend(p, kind, pol, via, hold)
+  /\ last' = [a |-> "Send", p |-> p, kind |-> kind, pol |-> pol, via |-> via, hold |-> hold]
+  /\ nHolds' = IF hold THEN nHolds + 1 ELSE nHolds
+  /\ UNCHANGED <<nReads, nPauses, nRestarts, nSnaps, nInstalls>>
+
+MCCount(id) == DoCount(id) /\ last' = [a |-> "Count", id |-> id] /\ UNCHANGED budgets
 
 \* server restart between two waves (nothing in flight): the metadata is rebuilt
-\* from the Raft log, the stream - with the settings of its latest creation -
-\* and its commit log are reopened; the abstract state does not change
+\* from the newest snapshot + the Raft log tail, or from the whole Raft log; the
+\* stream - with the settings of its latest creation - and its commit log are
+\* reopened
 MCRestart ==
   /\ nRestarts < MaxRestarts /\ Len(msgs) < MaxMsgs /\ msgs # <<>>
-  /\ net = {} /\ chan = <<>> /\ ackq = {}
-  /\ last' = [a |-> "Restart"] /\ nRestarts' = nRestarts + 1
-  /\ UNCHANGED <<vars, nReads, nPauses>>
+  /\ DoRestartAs(SnapKeeps)
+  /\ last' = [a |-> "Restart", from |-> snap] /\ nRestarts' = nRestarts + 1
+  /\ UNCHANGED <<nReads, nPauses, nHolds, nSnaps, nInstalls>>
+
+\* the metadata Raft group persists a snapshot (between two waves)
+MCSnapshot ==
+  /\ nSnaps < MaxSnaps /\ Len(msgs) < MaxMsgs /\ snap # "cur"
+  /\ DoSnapshot
+  /\ last' = [a |-> "Snapshot"] /\ nSnaps' = nSnaps + 1
+  /\ UNCHANGED <<nReads, nPauses, nRestarts, nHolds, nInstalls>>
+
+\* the running server installs a snapshot of its own state machine
+MCInstall ==
+  /\ nInstalls < MaxInstalls /\ Len(msgs) < MaxMsgs /\ msgs # <<>>
+  /\ DoInstallAs(SnapKeeps)
+  /\ last' = [a |-> "Install"] /\ nInstalls' = nInstalls + 1
+  /\ UNCHANGED <<nReads, nPauses, nRestarts, nHolds, nSnaps>>
 
 \* PauseStream between two waves (everybody has his answers)
 MCPause ==
   /\ nPauses < MaxPauses /\ Len(msgs) < MaxMsgs
   /\ DoPause
-  /\ last' = [a |-> "Pause"] /\ nPauses' = nPauses + 1 /\ UNCHANGED <<nReads, nRestarts>>
+  /\ last' = [a |-> "Pause"] /\ nPauses' = nPauses + 1 /\ UNCHANGED <<nReads, nRestarts, nHolds, nSnaps, nInstalls>>
 
 MCRead(p) ==
   /\ nReads < MaxReads /\ known[p] # Len(log)
   /\ DoRead(p)
-  /\ last' = [a |-> "Read", p |-> p] /\ nReads' = nReads + 1 /\ UNCHANGED <<nPauses, nRestarts>>
+  /\ last' = [a |-> "Read", p |-> p] /\ nReads' = nReads + 1 /\ UNCHANGED <<nPauses, nRestarts, nHolds, nSnaps, nInstalls>>
 
 \* all publishers wait for their answers, then look at the log end
 MCBarrier ==
   /\ Quiescent /\ msgs # <<>> /\ \E p \in Pubs : known[p] # Len(log)
   /\ known' = [p \in Pubs |-> Len(log)]
   /\ last' = [a |-> "Barrier"]
-  /\ UNCHANGED <<cfg, msgs, net, chan, log, ackq, clk, paused, nReads, nPauses, nRestarts>>
+  /\ UNCHANGED <<cfg, msgs, net, chan, log, ackq, clk, paused, eocc, snap, infl, unc>> /\ UNCHANGED budgets
 
-MCArrive(id) == DoArrive(id) /\ last' = [a |-> "Arrive", id |-> id] /\ UNCHANGED <<nReads, nPauses, nRestarts>>
-MCAck(id) == DoAckDeliver(id) /\ last' = [a |-> "Ack", id |-> id] /\ UNCHANGED <<nReads, nPauses, nRestarts>>
+MCArrive(id) == DoArrive(id) /\ last' = [a |-> "Arrive", id |-> id] /\ UNCHANGED budgets
+
+\* (g) seeded defect: a PublishAsync session throws away an answer that arrives
+\* while it counts nothing as in flight
+MutAckDrop(id) ==
+  /\ id \in ackq
+  /\ \A j \in ackq : SameLine(j, id) => id <= j
+  /\ InSession(id) /\ infl[msgs[id].p] = 0
+  /\ ackq' = ackq \ {id}
+  /\ UNCHANGED <<cfg, msgs, net, chan, log, clk, known, paused, eocc, snap, infl, unc>>
+
+MCAck(id) ==
+  /\ IF Mut = "drop_idle_ack" /\ InSession(id) /\ infl[msgs[id].p] = 0 THEN MutAckDrop(id) ELSE DoAckDeliver(id)
+  /\ last' = [a |-> "Ack", id |-> id] /\ UNCHANGED budgets
 
 -----------------------------------------------------------------------------
 (* deliberately broken variants of the loop iteration *)
@@ -82,7 +129,7 @@ MutAfterWrite(n) ==
         /\ msgs' = [msgs EXCEPT ![b[1]].res = IF bad THEN "incorrect_offset" ELSE "ok",
                                 ![b[1]].off = IF bad THEN -1 ELSE base]
         /\ ackq' = ackq \cup {b[1]}
-  /\ UNCHANGED <<cfg, net, clk, known, paused>>
+  /\ UNCHANGED <<cfg, net, clk, known, paused, eocc, snap, infl, unc>>
 
 \* (c) compared with the newest offset instead of the next one
 MutNewest(n) ==
@@ -96,7 +143,7 @@ MutNewest(n) ==
            ELSE /\ log' = log \o Stamped(b, base)
                 /\ msgs' = [msgs EXCEPT ![b[1]].res = "ok", ![b[1]].off = base]
         /\ ackq' = ackq \cup {b[1]}
-  /\ UNCHANGED <<cfg, net, clk, known, paused>>
+  /\ UNCHANGED <<cfg, net, clk, known, paused, eocc, snap, infl, unc>>
 
 \* (b) batch size not forced to 1 (and no panic): message i of the batch is
 \* checked against base + i - 1, one mismatch refuses the whole batch and only
@@ -116,7 +163,7 @@ MutBatch(n) ==
                               THEN [msgs[id] EXCEPT !.res = "ok", !.off = base + IdxIn(b, id) - 1]
                               ELSE msgs[id]]
                 /\ ackq' = ackq \cup {b[i] : i \in 1..n}
-  /\ UNCHANGED <<cfg, net, clk, known, paused>>
+  /\ UNCHANGED <<cfg, net, clk, known, paused, eocc, snap, infl, unc>>
 
 \* (f) the INCORRECT_OFFSET answer is sent only for ack policy LEADER
 MutNackLeaderOnly(n) ==
@@ -132,7 +179,7 @@ MutNackLeaderOnly(n) ==
            ELSE /\ log' = log \o Stamped(b, base)
                 /\ msgs' = [msgs EXCEPT ![b[1]].res = "ok", ![b[1]].off = base]
                 /\ ackq' = ackq \cup {b[1]}
-  /\ UNCHANGED <<cfg, net, clk, known, paused>>
+  /\ UNCHANGED <<cfg, net, clk, known, paused, eocc, snap, infl, unc>>
 
 \* (e) every negative expected offset waives the check (not only -1)
 MutNegWaives(n) ==
@@ -146,7 +193,24 @@ MutNegWaives(n) ==
            ELSE /\ log' = log \o Stamped(b, base)
                 /\ msgs' = [msgs EXCEPT ![b[1]].res = "ok", ![b[1]].off = base]
         /\ ackq' = ackq \cup {b[1]}
-  /\ UNCHANGED <<cfg, net, clk, known, paused>>
+  /\ UNCHANGED <<cfg, net, clk, known, paused, eocc, snap, infl, unc>>
+
+\* (h) seeded defect: the expected offset is taken only from an envelope that
+\* carries an ack inbox (otherwise the zero value stays: "expected offset 0")
+MutNoInboxExp(n) ==
+  /\ n = 1 /\ n <= Len(chan)
+  /\ LET b == SubSeq(chan, 1, n)
+         base == Len(log)
+         e == IF msgs[b[1]].via \in Silent THEN 0 ELSE EffExp(b[1])
+         bad == eocc /\ e # -1 /\ e # base
+         mute == msgs[b[1]].pol = "none" \/ msgs[b[1]].via \in Silent
+     IN /\ chan' = Tail(chan)
+        /\ IF bad THEN /\ log' = log
+                       /\ msgs' = IF mute THEN msgs ELSE [msgs EXCEPT ![b[1]].res = "incorrect_offset"]
+           ELSE /\ log' = log \o Stamped(b, base)
+                /\ msgs' = IF mute THEN msgs ELSE [msgs EXCEPT ![b[1]].res = "ok", ![b[1]].off = base]
+        /\ ackq' = IF mute THEN ackq ELSE ackq \cup {b[1]}
+  /\ UNCHANGED <<cfg, net, clk, known, paused, eocc, snap, infl, unc>>
 
 MCProcess(n) ==
   /\ CASE Mut = "none" -> DoProcess(n)
@@ -155,12 +219,16 @@ MCProcess(n) ==
        [] Mut = "batch" -> MutBatch(n)
        [] Mut = "neg_waives" -> MutNegWaives(n)
        [] Mut = "nack_leader_only" -> MutNackLeaderOnly(n)
+       [] Mut = "noinbox_exp" -> MutNoInboxExp(n)
        [] OTHER -> DoProcess(n)
   /\ last' = [a |-> "Process", b |-> SubSeq(chan, 1, n)]
-  /\ UNCHANGED <<nReads, nPauses, nRestarts>>
+  /\ UNCHANGED budgets
 
 MCNext ==
-  \/ \E p \in Pubs, kind \in Kinds, pol \in Pols : MCSend(p, kind, pol)
+  \/ \E p \in Pubs, kind \in Kinds, pol \in Pols, via \in Vias, hold \in BOOLEAN : MCSend(p, kind, pol, via, hold)
+  \/ \E id \in unc : MCCount(id)
+  \/ MCSnapshot
+  \/ MCInstall
   \/ \E p \in Pubs : MCRead(p)
   \/ MCBarrier
   \/ MCPause
@@ -178,5 +246,5 @@ StepsOK == [][StepOK]_mcvars
 \* the log only grows (single node, nothing truncates)
 LogGrows == [][Len(log') >= Len(log) /\ SubSeq(log', 1, Len(log)) = log]_mcvars
 
-MCView == <<cfg, msgs, net, chan, log, ackq, clk, known, paused, nReads, nPauses, nRestarts>>
+MCView == <<vars, budgets>>
 =============================================================================
